@@ -485,6 +485,59 @@ var<workgroup> wc: atomic<u32>;
   o[5] = atomicSub(&a.c, 1u); atomicStore(&wc, 3u); o[6] = atomicAdd(&wc, o[7]); o[8] = atomicLoad(&wc);
 }""")
 
+# ---- systematic family: run-time subscripts (the index is a loop variable, so it is never folded) into every
+# indexable value type, in every address space where the HLSL writer takes a different path, as load and as store.
+# Every index stays in bounds, so WGSL defines the result; every element holds a distinct value, so reading or
+# writing the wrong column / component / element changes the output.
+def _dynidx_programs():
+    out = []
+
+    def decl(space, ty, name):
+        if space == "private":
+            return "var<private> %s: %s;\n" % (name, ty), ""
+        if space == "workgroup":
+            return "var<workgroup> %s: %s;\n" % (name, ty), ""
+        return "", "  var %s: %s;\n" % (name, ty)
+
+    for space in ("function", "private", "workgroup", "let"):
+        # matrices: C columns of R rows
+        for c in (2, 3, 4):
+            for r in (2, 3, 4):
+                ty = "mat%dx%d<f32>" % (c, r)
+                cols = ", ".join("vec%d<f32>(%s)" % (r, ", ".join("%d.0" % (10 * k + j + 1) for j in range(r))) for k in range(c))
+                init = "%s(%s)" % (ty, cols)
+                if space == "let":
+                    g, l = "", "  let m = %s;\n" % init
+                else:
+                    g, l = decl(space, ty, "m")
+                    l += "  m = %s;\n" % init
+                body = l
+                body += "  for (var k = 0u; k < %du; k++) { let col = m[k]; for (var j = 0u; j < %du; j++) { of[k * 4u + j] = col[j]; } }\n" % (c, r)
+                if space != "let":
+                    body += "  for (var k = 0u; k < %du; k++) { m[k] = vec%d<f32>(f32(k) + 100.0); of[16u + k] = m[k].x + m[(k + 1u) %% %du].y; }\n" % (c, r, c)
+                    body += "  for (var k = 0u; k < %du; k++) { m[k][k %% %du] = f32(k) + 200.0; }\n" % (c, r)
+                    body += "  for (var k = 0u; k < %du; k++) { for (var j = 0u; j < %du; j++) { of[32u + k * 4u + j] = m[k][j]; } }\n" % (c, r)
+                out.append(("dynidx_%s_mat%dx%d" % (space, c, r), g + "@compute @workgroup_size(1) fn main() {\n" + body + "}"))
+        # vectors and fixed-size arrays
+        for n in (2, 3, 4):
+            for (ty, init, outb, conv) in (("vec%d<i32>" % n, "vec%d<i32>(%s)" % (n, ", ".join(str(7 * j + 1) for j in range(n))), "oi", "i32"),
+                                           ("array<u32, %d>" % n, "array<u32, %d>(%s)" % (n, ", ".join("%du" % (5 * j + 2) for j in range(n))), "o", "u32")):
+                if space == "let":
+                    g, l = "", "  let m = %s;\n" % init
+                else:
+                    g, l = decl(space, ty, "m")
+                    l += "  m = %s;\n" % init
+                body = l + "  for (var k = 0u; k < %du; k++) { %s[k] = m[k]; }\n" % (n, outb)
+                if space != "let":
+                    body += "  for (var k = 0u; k < %du; k++) { m[k] = %s(k) + %s(50); %s[8u + k] = m[(k + 1u) %% %du]; }\n" % (n, conv, conv, outb, n)
+                    body += "  for (var k = 0u; k < %du; k++) { %s[16u + k] = m[k]; }\n" % (n, outb)
+                out.append(("dynidx_%s_%s%d" % (space, "vec" if ty.startswith("vec") else "arr", n), g + "@compute @workgroup_size(1) fn main() {\n" + body + "}"))
+    return out
+
+
+for _n, _s in _dynidx_programs():
+    prog(_n, _s)
+
 # programs isolating constructs with an open finding (mismatch expected; key diff:<name>)
 KNOWN = []
 
